@@ -8,6 +8,8 @@ package main
 // code confirms it.
 
 import (
+	"fmt"
+	"os"
 	"strings"
 )
 
@@ -150,7 +152,11 @@ func relaxInstances(bodies []string) string {
 		return ""
 	}
 	var b strings.Builder
-	for _, s := range groundInstances(bodies, relaxDefs, relaxPats, 7, 800) {
+	rounds := 7
+	if v := os.Getenv("GVC_RELAX_ROUNDS"); v != "" {
+		fmt.Sscanf(v, "%d", &rounds)
+	}
+	for _, s := range groundInstances(bodies, relaxDefs, relaxPats, rounds, 800) {
 		b.WriteString("(assert " + s + ")\n")
 	}
 	return b.String()
